@@ -199,3 +199,47 @@ func c10hostile(compressed bool) {
 
 func C10_Hostile()           { c10hostile(false) }
 func C10_HostileCompressed() { c10hostile(true) }
+
+var _ = vReg("C10_MultiBatch", C10_MultiBatch)
+
+// C10_MultiBatch: an import that needs more than one database batch (more than 10000 nodes): the
+// batch-writer goroutine protocol of Importer.writeNode/Commit/Close under the cooperative scheduler
+// (a hang shows as "all goroutines are asleep"). One concrete path: a complete tree of 8192 leaves.
+func C10_MultiBatch() {
+	db := newVDB()
+	tree := NewMutableTree(db, 0, true, NewNopLogger())
+	imp, err := tree.Import(1)
+	vAssert(err == nil, "multibatch:import")
+	n := 0
+	var gen func(lo, hi int) int8
+	gen = func(lo, hi int) int8 {
+		if hi-lo == 1 {
+			k := []byte{byte(lo >> 8), byte(lo)}
+			vAssert(imp.Add(&ExportNode{Key: k, Value: []byte{1}, Version: 1, Height: 0}) == nil, "multibatch:add-leaf")
+			n++
+			return 0
+		}
+		mid := (lo + hi) / 2
+		hl := gen(lo, mid)
+		hr := gen(mid, hi)
+		h := hl
+		if hr > h {
+			h = hr
+		}
+		k := []byte{byte(mid >> 8), byte(mid)}
+		vAssert(imp.Add(&ExportNode{Key: k, Version: 1, Height: h + 1}) == nil, "multibatch:add-inner")
+		n++
+		return h + 1
+	}
+	gen(0, 8192)
+	vAssert(n == 16383, "multibatch:count")
+	vAssert(imp.Commit() == nil, "multibatch:commit")
+	imp.Close()
+	t2 := NewMutableTree(db, 0, true, NewNopLogger())
+	lv, err := t2.Load()
+	vAssert(err == nil && lv == 1, "multibatch:load")
+	vAssert(t2.Size() == 8192, "multibatch:size")
+	v, err := t2.Get([]byte{0x12, 0x34})
+	vAssert(err == nil && len(v) == 1 && v[0] == 1, "multibatch:get")
+	vCover("multibatch")
+}
